@@ -320,7 +320,9 @@ fn kinds_in_repo() -> BTreeSet<String> {
 			}
 		}
 	}
-	let root = std::path::Path::new("/repo/crates/kira/src");
+	let repo = std::env::var("KIRA_REPO").unwrap_or_else(|_| "/repo".to_string());
+	let root_s = format!("{}/crates/kira/src", repo);
+	let root = std::path::Path::new(&root_s);
 	walk(root, &mut |p| {
 		let Ok(src) = std::fs::read_to_string(p) else { return };
 		let rel = p.strip_prefix(root).unwrap().with_extension("").to_string_lossy().replace('/', "::");
